@@ -56,6 +56,7 @@ func (fc *FuncCtx) monitorEnter(fr *Frame, st *State, owner types.Type, field, r
 	for _, inv := range invs {
 		for _, cl := range inv.Clauses {
 			ev := fc.invEnv(st, inv, owner, ref)
+			ev.monitorAssume = true
 			fc.u.fact(st.pc, ev.evalBool(cl.E))
 		}
 	}
